@@ -22,6 +22,7 @@ META = {
                      "std::sync::Weak::upgrade fails once the strong count reached zero", "std::sync::RwLock"],
     "assumptions": ["user Drop impls of T do not call back into the same observable"],
 }
+META["explanation"] += ' R03.2 treats Arc::try_unwrap as racy (two concurrent last releases can both fail; only Arc::into_inner is atomic); R19.6 / R19.7 are evaluated here: every owner handle releases its share exactly once and no field of a live handle is replaced (clone_from / mem::replace / assignment).'
 
 
 def run(ctx):
